@@ -63,6 +63,11 @@ func (e *Engine) checkTypeInvs() {
 						if fa, ok := r.(ssa.Value); ok && onlyLoaded(fa, 0) {
 							continue
 						}
+						if s, ok := r.(*ssa.Slice); ok && s.X == x {
+							if al := rootAlloc(x); al != nil && isPrivateCopy(al) {
+								continue // a slice of the function's own copy of the value
+							}
+						}
 						ti.Broken = fmt.Sprintf("field %s of %s is written or escapes in %s", fieldName(x), ti.Type, fnKey(fn))
 					}
 				case *ssa.Alloc:
@@ -101,6 +106,25 @@ func (e *Engine) checkTypeInvs() {
 	}
 }
 
+// isPrivateCopy: the alloc is the spill of a by-value parameter (or receiver): one whole-value
+// store of the parameter and no other store to the alloc itself.
+func isPrivateCopy(al *ssa.Alloc) bool {
+	refs := al.Referrers()
+	if refs == nil {
+		return false
+	}
+	n := 0
+	for _, r := range *refs {
+		if s, ok := r.(*ssa.Store); ok && s.Addr == al {
+			if _, isParam := s.Val.(*ssa.Parameter); !isParam {
+				return false
+			}
+			n++
+		}
+	}
+	return n == 1
+}
+
 func onlyLoaded(v ssa.Value, depth int) bool {
 	if depth > 4 {
 		return false
@@ -122,7 +146,12 @@ func onlyLoaded(v ssa.Value, depth int) bool {
 			continue
 		}
 		if s, ok := r.(*ssa.Slice); ok && s.X == v {
-			// slicing an array field: reading view (writes through it are not tracked: treated as escape)
+			// slicing an array field: writes through the slice are not tracked, so this is an
+			// escape - unless the struct is the function's own copy of a value (a value
+			// receiver or parameter spilled to memory): the original is out of reach then
+			if al := rootAlloc(v); al != nil && isPrivateCopy(al) {
+				continue
+			}
 			return false
 		}
 		if fa, ok := r.(ssa.Value); ok && onlyLoaded(fa, depth+1) {
